@@ -8,7 +8,10 @@ C14 — property theorems. The statement (properties.jsonl):
   for a reserve that is larger than a reserve that succeeds, and never panics.
 
 All theorems quantify over every structure (`rest`, `k` unbounded) and every reserve /
-desired size (unbounded; the CBOR head rule includes the 5- and 9-byte heads).
+desired size (unbounded naturals; the CBOR head rule includes the 5- and 9-byte heads). The
+implementation allocates the pads (`vec![0u8; n]`), so on the real code the statements are
+exercised up to +70000 bytes only (registry: level_note); a reserve near `usize::MAX` aborts in
+the allocator, which the model does not represent.
 -/
 namespace C2pa.C14
 
@@ -307,9 +310,12 @@ theorem cose_pad_exact_full_false : ¬ CosePadExactFull := by
   have : padCoseSig ⟨100, 0⟩ (some 102) = .tooSmall := by decide
   rw [this] at hp; cases hp
 
-/-- **The residual gap is not the algorithm's choice.** No choice of `pad` / `pad2` lengths
-gives a serialised size strictly between the unpadded size and the smallest padded form:
-no CBOR map entry with these labels is smaller than five bytes. -/
+/-- **The residual gap is not the loop's choice, it is the scheme's.** With the two labelled
+byte-string entries the routine (and every existing reader) uses — `"pad": bytes`,
+`"pad2": bytes` — no choice of lengths gives a serialised size strictly between the unpadded
+size and the smallest padded form: such an entry takes at least five bytes (1 + 3 + 1).
+This says nothing about other CBOR entries: a map entry can be as small as two bytes
+(`0: 0`), so with a different padding vocabulary only +1 would be out of reach. -/
 theorem cose_gap_impossible (s : Sign1) (p p2 : Option Nat) :
     size s p p2 = unpadded s ∨ minPadded s ≤ size s p p2 := by
   rw [minPadded_eq, fixedPart_none]
@@ -425,6 +431,46 @@ theorem cose_window_unchanged (s : Sign1) (e : Nat) (hk : s.k + 1 < 24)
     simp only [size_some]
     rw [hsz]
   · exact absurd ⟨e - unpadded s - 7, hsz⟩ hnr
+
+
+/-- **cose_pad2_iff.** For a reserve at or above the smallest padded form the routine uses the
+second entry `pad2` (always empty) exactly at the sizes a single byte string cannot fill:
+24, 257, 65538, 65539 and 2^32+4 … 2^32+7 bytes over the smallest padded form. -/
+theorem cose_pad2_iff (s : Sign1) (e : Nat) (h : minPadded s ≤ e) :
+    (∃ len p, padCoseSig s (some e) = .ok len p (some 0)) ↔
+      (let x := e - minPadded s
+       x = 24 ∨ x = 257 ∨ x = 65538 ∨ x = 65539 ∨ (4294967300 ≤ x ∧ x ≤ 4294967303)) := by
+  have hmp := minPadded_eq s
+  have hlt := unpadded_lt_minPadded s
+  have hcur : ¬ (size s none none = e) := by unfold unpadded at hlt; omega
+  have hle : fixedPart s none + 1 ≤ e := by omega
+  rw [hmp, ← not_reachable_iff s none e hle]
+  unfold padCoseSig
+  simp only [hcur, if_false]
+  rcases attempt_spec s none e with ⟨hl, _⟩ | ⟨_, g, hg, ha⟩ | ⟨_, hnr, ha⟩
+  · omega
+  · rw [ha]
+    constructor
+    · rintro ⟨_, _, h⟩; cases h
+    · intro hn; exact absurd ⟨g, hg⟩ hn
+  · rw [ha]
+    refine ⟨fun _ => hnr, fun _ => ?_⟩
+    have hgap := (not_reachable_iff s none e hle).1 hnr
+    simp only at hgap
+    have hfp := fixedPart_some0 s
+    have hst : hdr (s.k + 2) - hdr (s.k + 1) ≤ 4 := hdr_step_le (s.k + 1)
+    have hle2 : fixedPart s (some 0) + 1 ≤ e := by omega
+    rcases attempt_spec s (some 0) e with ⟨hl, _⟩ | ⟨_, g, _, hb⟩ | ⟨_, hnr2, _⟩
+    · omega
+    · rw [hb]; exact ⟨_, _, rfl⟩
+    · have hgap2 := (not_reachable_iff s (some 0) e hle2).1 hnr2
+      simp only at hgap2
+      omega
+
+example : ∃ len p, padCoseSig ⟨1066, 0⟩ (some (minPadded ⟨1066, 0⟩ + 24)) = .ok len p (some 0) :=
+  ⟨1096, some 18, by decide⟩
+example : ∃ len p, padCoseSig ⟨1066, 0⟩ (some (minPadded ⟨1066, 0⟩ + 25)) = .ok len p none :=
+  ⟨1097, some 24, by decide⟩
 
 /-! ### DataHash::pad_to_size -/
 
@@ -598,6 +644,78 @@ theorem datahash_ok_exact (d d' : DH) (want : Nat) (h : padToSize d want = .ok d
         · rw [hok] at h; cases h; exact ⟨by rw [dhSize_some]; exact hsz, rfl⟩
         · rw [herr] at h; cases h
 
+
+/-- **datahash_ok_iff.** For every `DataHash` the SDK builds (`pad2 = None`) `pad_to_size`
+succeeds exactly when the desired size is at least the current size. -/
+theorem datahash_ok_iff (d : DH) (want : Nat) (h2 : d.pad2 = none) :
+    (∃ d', padToSize d want = .ok d') ↔ dhSize d ≤ want := by
+  constructor
+  · rintro ⟨d', h⟩
+    apply Classical.byContradiction
+    intro hn
+    have hgt : dhSize d > want := by omega
+    have : padToSize d want = .err := by
+      show padToSizeF (1 + 1) d want = .err
+      rw [padToSizeF_succ]; simp [hgt]
+    rw [this] at h; cases h
+  · intro hle
+    obtain ⟨d', h, _⟩ := datahash_pad_exact d want h2 hle
+    exact ⟨d', h⟩
+
+/-- **datahash_monotone.** (`pad2 = None`) a desired size larger than one that succeeds
+succeeds: the statement's second sentence for the data-hash assertion. -/
+theorem datahash_monotone (d : DH) (want want' : Nat) (h2 : d.pad2 = none) (hle : want ≤ want')
+    (hok : ∃ d', padToSize d want = .ok d') : ∃ d', padToSize d want' = .ok d' := by
+  rw [datahash_ok_iff d _ h2] at hok ⊢
+  omega
+
+/-- **datahash_preset_ok_iff.** With a caller-set `pad2` (a public field the SDK itself never
+sets before the call) the single retry is used up: it succeeds exactly when some pad length
+from the current one upwards gives the desired size. -/
+theorem datahash_preset_ok_iff (r p m want : Nat) :
+    (∃ d', padToSize ⟨r, p, some m⟩ want = .ok d') ↔
+      ∃ q, p ≤ q ∧ r + hdr q + q + (5 + hdr m + m) = want := by
+  show (∃ d', padToSizeF (1 + 1) ⟨r, p, some m⟩ want = .ok d') ↔ _
+  rw [padToSizeF_succ, dhSize_some]
+  have e4 : optEntry 4 (some m) = 5 + hdr m + m := by simp [optEntry, entry]
+  by_cases hc : r + hdr p + p + (5 + hdr m + m) > want
+  · simp only [hc, if_true]
+    constructor
+    · rintro ⟨_, h⟩; cases h
+    · rintro ⟨q, hq, hs⟩
+      have := padded_mono r hq
+      omega
+  · simp only [hc, if_false]
+    rcases padLoop_spec ⟨r, p, some m⟩ want (want - (r + hdr p + p + (5 + hdr m + m)) + 2) p 0
+        (by simp only [e4]; omega) (by simp only [e4]; omega) with
+      ⟨q, hq, hf, ha⟩ | ⟨q, hq, hf1, hf2, ha⟩
+    · simp only [e4] at hf
+      rw [ha]
+      exact ⟨fun _ => ⟨q, hq, hf⟩, fun _ => ⟨_, rfl⟩⟩
+    · simp only [e4] at hf1 hf2
+      rw [ha]
+      constructor
+      · rintro ⟨_, h⟩; cases h
+      · rintro ⟨q', _, hs⟩
+        by_cases c : q' ≤ q
+        · have := padded_mono r c; omega
+        · have := padded_mono r (show q + 1 ≤ q' by omega); omega
+
+/-- The statement's second sentence for *every* `DataHash` value, preset `pad2` included. -/
+def DataHashMonotoneFull : Prop :=
+  ∀ (d : DH) (want want' : Nat), want ≤ want' →
+    (∃ d', padToSize d want = .ok d') → (∃ d', padToSize d want' = .ok d')
+
+/-- It is false: with `pad2` preset, 130 succeeds (already that size) and 131 is an error (the
+pad header grows at 24 bytes and the retry is used up). Replayed on the implementation
+(`C14 dh a=102 pad=23 pad2=0 want=…`). -/
+theorem datahash_monotone_full_false : ¬ DataHashMonotoneFull := by
+  intro h
+  have h1 : ∃ d', padToSize ⟨100, 23, some 0⟩ 130 = .ok d' := ⟨⟨100, 23, some 0⟩, by decide⟩
+  obtain ⟨d', hd⟩ := h ⟨100, 23, some 0⟩ 130 131 (by decide) h1
+  have : padToSize ⟨100, 23, some 0⟩ 131 = .err := by decide
+  rw [this] at hd; cases hd
+
 /-- With a caller-set `pad2` the single retry is already used up: a desired size just past
 a head boundary is an error (never a wrong size, see `datahash_ok_exact`). The SDK never
 builds such a value; the hypothesis `pad2 = none` of `datahash_pad_exact` is needed. -/
@@ -629,9 +747,110 @@ theorem datahash_terminates (d : DH) (want : Nat) : padToSize d want ≠ .fuelOu
         · rw [hok]; simp
         · rw [herr]; simp
 
-/-- The equal-size re-serialisation check of `start_save_stream` passes exactly when the
-sizes agree (which `datahash_pad_exact` guarantees for the assertion that was re-padded). -/
+/-! ### `save_to_stream`: the placeholder JUMBF and the final JUMBF have the same length -/
+
 theorem sameSizeCheck_iff (a b : Nat) : sameSizeCheck a b = true ↔ a = b := by
   simp [sameSizeCheck]
+
+/-- The equal-size check of `start_save_stream` never fires: whenever `pad_to_size` returned
+`Ok` the regenerated JUMBF has the placeholder's size (`datahash_ok_exact`). The check is a
+second line of defence, not a reachable error path of the model. -/
+theorem save_check_never_fires (v : Save) (d' : DH)
+    (h : padToSize v.dh1 (dhSize v.dh0) = .ok d') :
+    sameSizeCheck (v.fixed + sigPlaceholder v.reserve + dhSize v.dh0)
+      (v.fixed + sigPlaceholder v.reserve + dhSize d') = true := by
+  rw [sameSizeCheck_iff, (datahash_ok_exact _ _ _ h).1]
+
+/-- **save_same_size.** When the SDK pads the signature (no direct COSE handling) and the
+signer's COSE structure is at least as large as the 32-byte placeholder digest (every
+COSE_Sign1 with a certificate is), a successful run ends with a final JUMBF of exactly the
+length of the placeholder JUMBF that was embedded and hashed — so the hashed exclusion range
+still covers exactly the manifest. -/
+theorem save_same_size (v : Save) (ph fin : Nat) (hd : v.direct = false)
+    (hs : 32 ≤ unpadded v.sig) (h : v.run = .ok ph fin) : fin = ph := by
+  unfold Save.run at h
+  cases hp : padToSize v.dh1 (dhSize v.dh0) with
+  | err => rw [hp] at h; cases h
+  | fuelOut => rw [hp] at h; cases h
+  | ok d' =>
+    rw [hp] at h
+    have hc := save_check_never_fires v d' hp
+    have hsz := (datahash_ok_exact _ _ _ hp).1
+    simp only [hc, Bool.not_true, Bool.false_eq_true, if_false, hd] at h
+    cases hq : padCoseSig v.sig (some v.reserve) with
+    | tooSmall => rw [hq] at h; cases h
+    | panic => rw [hq] at h; cases h
+    | fuelOut => rw [hq] at h; cases h
+    | ok len p p2 =>
+      rw [hq] at h
+      simp only [SaveRes.ok.injEq] at h
+      obtain ⟨h1, h2⟩ := h
+      have hlen := (cose_ok_exact _ _ _ _ _ hq).1
+      have hok : v.reserve = unpadded v.sig ∨ minPadded v.sig ≤ v.reserve :=
+        (cose_ok_iff v.sig v.reserve).1 ⟨len, p, p2, hq⟩
+      have := unpadded_lt_minPadded v.sig
+      have hr : 32 ≤ v.reserve := by omega
+      have : sigPlaceholder v.reserve = v.reserve := by unfold sigPlaceholder; omega
+      omega
+
+/-- **save_ok_iff.** The run signs successfully iff the final DataHash is not larger than the
+placeholder's and the reserve is the unpadded COSE size or at least the smallest padded form. -/
+theorem save_ok_iff (v : Save) (hd : v.direct = false) (h2 : v.dh1.pad2 = none) :
+    (∃ ph fin, v.run = .ok ph fin) ↔
+      (dhSize v.dh1 ≤ dhSize v.dh0 ∧
+        (v.reserve = unpadded v.sig ∨ minPadded v.sig ≤ v.reserve)) := by
+  unfold Save.run
+  constructor
+  · rintro ⟨ph, fin, h⟩
+    cases hp : padToSize v.dh1 (dhSize v.dh0) with
+    | err => rw [hp] at h; cases h
+    | fuelOut => rw [hp] at h; cases h
+    | ok d' =>
+      rw [hp] at h
+      have hc := save_check_never_fires v d' hp
+      simp only [hc, Bool.not_true, Bool.false_eq_true, if_false, hd] at h
+      refine ⟨(datahash_ok_iff _ _ h2).1 ⟨d', hp⟩, ?_⟩
+      cases hq : padCoseSig v.sig (some v.reserve) with
+      | tooSmall => rw [hq] at h; cases h
+      | panic => rw [hq] at h; cases h
+      | fuelOut => rw [hq] at h; cases h
+      | ok len p p2 => exact (cose_ok_iff v.sig v.reserve).1 ⟨len, p, p2, hq⟩
+  · rintro ⟨hdh, hres⟩
+    obtain ⟨d', hp⟩ := (datahash_ok_iff _ _ h2).2 hdh
+    obtain ⟨len, p, p2, hq⟩ := (cose_ok_iff v.sig v.reserve).2 hres
+    have hc := save_check_never_fires v d' hp
+    rw [hp]
+    simp only [hc, Bool.not_true, Bool.false_eq_true, if_false, hd, hq]
+    exact ⟨_, _, rfl⟩
+
+example : (⟨5000, 1300, ⟨1066, 0⟩, false, ⟨240, 10, none⟩, ⟨150, 0, none⟩⟩ : Save).run =
+    .ok 6551 6551 := by decide
+example : (⟨5000, 1068, ⟨1066, 0⟩, false, ⟨240, 10, none⟩, ⟨150, 0, none⟩⟩ : Save).run =
+    .sigTooSmall := by decide
+
+/-- The 32-byte floor of the placeholder is why `save_same_size` needs `32 ≤ unpadded`: a
+(hypothetical) 20-byte COSE structure with a reserve of 20 is embedded behind a 32-byte
+placeholder and ends 12 bytes shorter. No signer with a certificate produces one. -/
+theorem save_small_sig_differs :
+    (⟨0, 20, ⟨19, 0⟩, false, ⟨10, 0, none⟩, ⟨10, 0, none⟩⟩ : Save).run = .ok 43 31 := by decide
+
+/-- **save_direct_unpadded.** With `direct_cose_handling()` the SDK does not pad: the final
+JUMBF has the placeholder's length iff the signer itself returned exactly
+`max(32, reserve)` bytes. -/
+theorem save_direct_unpadded (v : Save) (ph fin : Nat) (hd : v.direct = true)
+    (h : v.run = .ok ph fin) : (fin = ph ↔ unpadded v.sig = sigPlaceholder v.reserve) := by
+  unfold Save.run at h
+  cases hp : padToSize v.dh1 (dhSize v.dh0) with
+  | err => rw [hp] at h; cases h
+  | fuelOut => rw [hp] at h; cases h
+  | ok d' =>
+    rw [hp] at h
+    have hc := save_check_never_fires v d' hp
+    have hsz := (datahash_ok_exact _ _ _ hp).1
+    simp only [hc, Bool.not_true, Bool.false_eq_true, if_false, hd, if_true] at h
+    simp only [SaveRes.ok.injEq] at h
+    obtain ⟨h1, h2⟩ := h
+    unfold unpadded
+    omega
 
 end C2pa.C14
